@@ -99,6 +99,8 @@ func c13Gen(c *vfCtx, emit func(c13Case)) {
 	pairs(texts(c13Seqs([]string{"+ x", "  x", "@@ -1 +1 @@", "at f:1"}, 2), true), []bool{false})
 	pairs(texts(c13Seqs([]string{"87%", "%20r", "%%", "%!d(MISSING)", "$1"}, 2), true), []bool{false, true})
 	pairs(texts(c13Seqs([]string{"a", "a\r", "\r", "a\r\r"}, 3), true), []bool{false, true})
+	// tabs, vertical tabs, form feeds, trailing blanks: lines that differ only there are different lines
+	pairs(texts(c13Seqs([]string{"a\tb", "a b", "a\vb", "a\fb", "a\tb ", "\t"}, 2), true), []bool{false, true})
 	// a valid U+FFFD where the other text has a byte that is not valid UTF-8 (both decode to the same runes)
 	pairs(texts(c13Seqs([]string{"caf\ufffd x", "caf\xe9 x", "caf\xff x", "b"}, 2), true), []bool{false, true})
 	for _, p := range vfLongTexts(c.thorough()) {
@@ -301,7 +303,9 @@ func c13Run(c *vfCtx, cs c13Case) {
 	got := t.outcome(mk)
 	c.outcome(got)
 	c.addSet("states", vfHash(strings.Join(t.errs[mk.e:], "\x00")))
-	if (got == "pass") != (cs.S == cs.R) || (got != "pass" && got != "failed") {
+	// the texts that are compared are the FORMATTED values (the documented formatter aligns tab-separated cells of a string)
+	fs, fr := vfFormat(vfCall{API: "ssnap", Val: cs.S}), vfFormat(vfCall{API: "ssnap", Val: cs.R})
+	if (got == "pass") != (fs == fr) || (got != "pass" && got != "failed") {
 		c.violation("", fmt.Sprintf("stored %q, received %q, colours=%v: the comparison signalled %s; a report must be absent iff the texts are byte-identical", vfClip(cs.S), vfClip(cs.R), cs.Color, got), cs)
 		return
 	}
@@ -312,7 +316,7 @@ func c13Run(c *vfCtx, cs c13Case) {
 			return
 		}
 		if !cs.Color {
-			if p := c13Report(rep, cs.S, cs.R); p != "" {
+			if p := c13Report(rep, fs, fr); p != "" {
 				c.violation("", fmt.Sprintf("stored %q, received %q: %s\nreport: %q", vfClip(cs.S), vfClip(cs.R), p, vfClip(rep)), cs)
 			}
 		}
